@@ -92,10 +92,19 @@ def build(case):
             ctext = GR.canon("len(%s) < 0 or (%s)" % (nm, ctext))
         # else: the lambda only ACCEPTS the placeholder (named in its signature, not used in its body)
     lam_params = sorted(set(lam_params) | set(named))
+    from vf.exprgen import layout as LY
+
+    kind = case.get("layout_kind", "one-line")
     text, start, end, scope = RD.module_text(ctext, lam_params, role=case.get("role", "require"), is_async=case["async"],
-                                             a_repr="AR" if case.get("limits") else None,
+                                             a_repr="AR" if case.get("limits") else None, layout=LY.make_layout(kind),
                                              prelude=prelude_for(case.get("limits")))
-    return {"text": text, "ctext": ctext, "lam_params": lam_params, "inputs": inputs, "b": b}
+    reported = ctext
+    if kind == "break-before-dot" and LY.dot_break(ctext) is not None:
+        # the condition text as it stands in the source (line breaks and indentation included)
+        seg = "\n".join(text.split("\n")[start - 1:end])
+        i = seg.index("lambda %s: " % ", ".join(lam_params)) + len("lambda %s: " % ", ".join(lam_params))
+        reported = seg[i:seg.rindex(",\n")]
+    return {"text": text, "ctext": ctext, "reported": reported, "lam_params": lam_params, "inputs": inputs, "b": b}
 
 
 def normalise(msg):
@@ -157,7 +166,7 @@ def check_case(ctx, case, collected=None):
                 label, ref, normalise(str(exc)) if isinstance(exc, Exception) else repr(exc)))
             return
     try:
-        parsed = MP.parse(str(first), "the-desc", built["ctext"])
+        parsed = MP.parse(str(first), "the-desc", built.get("reported", built["ctext"]))
     except MP.ParseError as e:
         fail("unparseable-message", "%s\n%s" % (e, first))
         return
@@ -302,7 +311,8 @@ def st_case(draw):
         inputs["Y"] = draw(st.sampled_from([-(7 ** 55), 10 ** 45, 7]))
     return {"text": cond["text"], "params": cond["params"], "features": cond["features"], "role": role,
             "async": role != "invariant" and draw(st.integers(0, 4)) == 0, "inputs": inputs,
-            "limits": limits, "perm": perm, "named": named, "named_use": named_use, "npos": draw(st.integers(1, 3))}
+            "limits": limits, "perm": perm, "named": named, "named_use": named_use, "npos": draw(st.integers(1, 3)),
+            "layout_kind": draw(st.sampled_from(["one-line", "one-line", "break-before-dot"]))}
 
 
 # ---- worker processes (other hash seeds) ---------------------------------------------------------------------
